@@ -79,7 +79,9 @@ pub fn cut_outer_edge<T: CoordsFloat>(
         (Some(v1), Some(v2)) => Vertex2::average(&v1, &v2),
         _ => retry()?,
     };
-    map.write_vertex(t, nd1, new_v)?;
+    // nd1 and nd3 already form one vertex: write under its ID, which is nd3 when nd3 < nd1
+    let new_vid = map.vertex_id_transac(t, nd1)?;
+    map.write_vertex(t, new_vid, new_v)?;
 
     map.unsew::<1>(t, ld)?;
     map.unsew::<1>(t, b1ld)?;
@@ -196,7 +198,9 @@ pub fn cut_inner_edge<T: CoordsFloat>(
         (Some(v1), Some(v2)) => Vertex2::average(&v1, &v2),
         _ => retry()?,
     };
-    map.write_vertex(t, nd1, new_v)?;
+    // nd1 and nd3 already form one vertex: write under its ID, which is nd3 when nd3 < nd1
+    let new_vid = map.vertex_id_transac(t, nd1)?;
+    map.write_vertex(t, new_vid, new_v)?;
 
     map.unsew::<2>(t, ld)?;
     map.unsew::<1>(t, ld)?;
